@@ -45,6 +45,22 @@ theorem pending_versions_distinct (cfg : Cfg) (all : List MFile) (revs : List Re
     (hn : (all.map (·.version)).Nodup) (h : (pending cfg all revs).out = .ok l) : (l.map (·.version)).Nodup :=
   ((pending_sublist cfg all revs l h).map _).nodup hn
 
+/-- **execute_to_is_subsequence / execute_to_stops_at_target**: `ExecuteTo(v)` (model `executeTo`) executes a
+sub-sequence of the directory; when a checkpoint file stands behind the target nothing behind the target is
+executed; otherwise it executes the prefix of `Pending`'s answer that ends with the target. -/
+theorem execute_to_is_subsequence (cfg : Cfg) (all : List MFile) (revs : List Revision) (v : String) (l : List MFile)
+    (h : executeTo cfg all revs v = some (.ok l)) : l.Sublist all :=
+  executeTo_sublist cfg all revs v l h
+
+theorem execute_to_stops_at_target (cfg : Cfg) (all : List MFile) (revs : List Revision) (v : String) (idx : Nat)
+    (l : List MFile) (hi : lastIndex (fun f => f.version == v) all = some idx)
+    (h : executeTo cfg all revs v = some (.ok l)) :
+    ((all.drop (idx + 1)).any (fun f => f.checkpoint) = true → l.Sublist (all.take (idx + 1))) ∧
+    ((all.drop (idx + 1)).any (fun f => f.checkpoint) = false →
+      ∃ p i, (pending cfg all revs).out = .ok p ∧ lastIndex (fun f => f.version == v) p = some i ∧ l = p.take (i + 1)) :=
+  ⟨fun hck => executeTo_before_checkpoint cfg all revs v idx l hi hck h,
+   fun hck => executeTo_prefix cfg all revs v idx l hi hck h⟩
+
 /-! ### what "not clean" is: the drivers' `CheckClean` (model `Atlas.Clean`) -/
 
 section Gate
